@@ -529,7 +529,10 @@ func parseContent(contentMap map[string]any) (Content, error) {
 		return parseTextContent(contentMap)
 	case "image":
 		return parseImageContent(contentMap)
-	case "resource":
+	case "audio":
+		return parseAudioContent(contentMap)
+	case "resource", ContentTypeEmbeddedResource:
+		// "resource" is the MCP tag; NewEmbeddedResource emits ContentTypeEmbeddedResource.
 		return parseResourceContent(contentMap)
 	default:
 		return nil, fmt.Errorf("unsupported content type: %s", contentType)
@@ -538,21 +541,55 @@ func parseContent(contentMap map[string]any) (Content, error) {
 
 // parseTextContent parses text content
 func parseTextContent(contentMap map[string]any) (Content, error) {
-	text := extractString(contentMap, "text")
-	if text == "" {
+	// The empty string is a valid text: only an absent (or non-string) member is an error.
+	text, ok := lookupString(contentMap, "text")
+	if !ok {
 		return nil, fmt.Errorf("text is missing")
 	}
-	return NewTextContent(text), nil
+	content := NewTextContent(text)
+	content.Annotated = parseAnnotated(contentMap)
+	return content, nil
 }
 
 // parseImageContent parses image content
 func parseImageContent(contentMap map[string]any) (Content, error) {
-	data := extractString(contentMap, "data")
-	mimeType := extractString(contentMap, "mimeType")
-	if data == "" || mimeType == "" {
+	data, hasData := lookupString(contentMap, "data")
+	mimeType, hasMimeType := lookupString(contentMap, "mimeType")
+	if !hasData || !hasMimeType {
 		return nil, fmt.Errorf("image data or mimeType is missing")
 	}
-	return NewImageContent(data, mimeType), nil
+	content := NewImageContent(data, mimeType)
+	content.Annotated = parseAnnotated(contentMap)
+	return content, nil
+}
+
+// parseAudioContent parses audio content
+func parseAudioContent(contentMap map[string]any) (Content, error) {
+	data, hasData := lookupString(contentMap, "data")
+	mimeType, hasMimeType := lookupString(contentMap, "mimeType")
+	if !hasData || !hasMimeType {
+		return nil, fmt.Errorf("audio data or mimeType is missing")
+	}
+	content := NewAudioContent(data, mimeType)
+	content.Annotated = parseAnnotated(contentMap)
+	return content, nil
+}
+
+// parseAnnotated decodes the optional "annotations" member shared by all content kinds.
+func parseAnnotated(contentMap map[string]any) Annotated {
+	var annotated Annotated
+	if raw, ok := contentMap["annotations"]; ok && raw != nil {
+		if data, err := json.Marshal(raw); err == nil {
+			_ = json.Unmarshal(data, &annotated.Annotations)
+		}
+	}
+	return annotated
+}
+
+// lookupString returns the string member key and whether it is present (and a string).
+func lookupString(data map[string]any, key string) (string, bool) {
+	str, ok := data[key].(string)
+	return str, ok
 }
 
 // parseResourceContent parses resource content
@@ -565,7 +602,9 @@ func parseResourceContent(contentMap map[string]any) (Content, error) {
 	if err != nil {
 		return nil, err
 	}
-	return NewEmbeddedResource(resourceContents), nil
+	content := NewEmbeddedResource(resourceContents)
+	content.Annotated = parseAnnotated(contentMap)
+	return content, nil
 }
 
 // extractString extracts a string value from a map by key
@@ -589,14 +628,15 @@ func extractMap(data map[string]any, key string) map[string]any {
 }
 
 func parseResourceContents(contentMap map[string]any) (ResourceContents, error) {
-	uri := extractString(contentMap, "uri")
-	if uri == "" {
+	uri, ok := lookupString(contentMap, "uri")
+	if !ok {
 		return nil, fmt.Errorf("resource uri is missing")
 	}
 
 	mimeType := extractString(contentMap, "mimeType")
 
-	if text := extractString(contentMap, "text"); text != "" {
+	// Select the variant by the member that is present: empty text / blob are valid values.
+	if text, ok := lookupString(contentMap, "text"); ok {
 		return TextResourceContents{
 			URI:      uri,
 			MIMEType: mimeType,
@@ -604,7 +644,7 @@ func parseResourceContents(contentMap map[string]any) (ResourceContents, error) 
 		}, nil
 	}
 
-	if blob := extractString(contentMap, "blob"); blob != "" {
+	if blob, ok := lookupString(contentMap, "blob"); ok {
 		return BlobResourceContents{
 			URI:      uri,
 			MIMEType: mimeType,
